@@ -122,6 +122,9 @@ fn build_logp(case: &J) -> TestLogp {
         }
     }
     l.log.lock().unwrap().keep = true;
+    // scripted faults are a function of the point: with extra doublings the tree builder integrates
+    // onto the same point twice, and the model's fault predicate is a function of the index
+    l.consistent_faults = jb(case, "consistent_faults", true);
     l
 }
 
